@@ -105,6 +105,9 @@ class Operator(Token):
 class Intersect(Operator):
     _re = regex.compile(r'^(?P<name>\s)\s*')
 
+    def process(self, match, context=None):
+        return {'name': ' '}
+
 
 class Separator(Operator):
     _re = regex.compile(r'^(\s*,\s*)')
@@ -131,7 +134,8 @@ class OperatorToken(Operator):
         r'^(\s*([<>]=|<>|[\*\/\^&<>=])(?=\s*[\+\-])|\s*%+|[\+\-\*\/\^&<>=\s:]+)'
     )
     _re_process = regex.compile(
-        r'^\s*(?P<name>(?P<sum_minus>[\+\s\-]+)|[<>]?=|<>|[\*\/\^&\%:<>])$'
+        r'^\s*(?P<name>(?P<sum_minus>\s*[\+\-][\+\s\-]*)|[<>]?=|<>|'
+        r'[\*\/\^&\%:<>])$'
     )
 
     def process(self, match, context=None):
